@@ -182,6 +182,13 @@ def run(ctx):
     have = set(hists)
     levels3 = ledger.enumerate_histories(uni, PREFIX, LABELS3, depth - 1)
     hists += [h for lv in levels3 for h in lv if h not in have]
+    # long chains (persistent maps change their layout beyond 32 entries): 36 funding blocks, then the split, spends of early
+    # outputs, a side branch off height 20 that overtakes or not
+    base = tuple(('f',) * k for k in range(1, 37))
+    tail = (base[-1] + ('s',), base[-1] + ('s', 'a'), base[-1] + ('s', 'a', 'c'), base[-1] + ('s', 'a', 'c', 'i'))
+    side = tuple(base[19] + ('e',) * k for k in range(1, 4))
+    longs = [base + tail, base + tail[:2] + side + tail[2:], base[:20] + side[:2] + base[20:] + tail]
+    hists += [h for h in longs if all(uni.get(p) is not None for p in h)]
     ctx.log("histories per level", [len(l) for l in levels], "second menu", [len(l) for l in levels2])
     if ctx.seed:
         import random
@@ -213,7 +220,8 @@ def run(ctx):
         'alternative_orders': tot.get('orders', 0), 'histories_with_same_tx_on_two_forks': shared,
         'exhaustive': True, 'bounds': {'blocks_beyond_prefix': depth, 'labels': list(LABELS),
                                        'second_menu': {'labels': list(LABELS2), 'blocks_beyond_prefix': depth - 1},
-                                       'third_menu': {'labels': list(LABELS3), 'blocks_beyond_prefix': depth - 1}},
+                                       'third_menu': {'labels': list(LABELS3), 'blocks_beyond_prefix': depth - 1},
+                                       'long_chains': '3 histories of 40-43 blocks (36 funding blocks, split, spends of early outputs, side branch off height 20)'},
         'rule': "BFS over arrival histories (any stored parent x payload menu), de-duplicated on (stored set, head); "
                 "each kept history is driven through add_block and add_block_no_validation; every stored block's "
                 "unspent set and balances are compared with the reference replay (traces_validated = per-block view "
